@@ -30,14 +30,19 @@ G_DeletingAfterCrash == job.ex /\ job.del /\ crashes > 0 /\ \E s \in Mine(pods) 
 \* a retry exists for an index while the other index has not finished its first attempt
 G_RetryWhileOtherRuns == \E s \in Mine(pods) : s[2] > 0 /\ Alive(pods[s]) /\ \E t \in Mine(pods) : t[1] # s[1] /\ t[2] = 0 /\ Alive(pods[t]) /\ pods[t].ran
 
+\* ... and the strategy is decided through a task that *is* recorded and has succeeded (the next pass sees the Job complete)
+G_UnrecordedNextToSuccess == \E s \in Slots : Unrecorded(s) /\ Alive(pods[s]) /\ ~pass.busy
+                                /\ \E t \in Slots : job.refs[t].ex /\ pods[t].ex /\ pods[t].mine /\ pods[t].ph = "S" /\ Strategy = "AnySuccessful"
+
 Emit(i, name, G) == ~G \/ TLCGet(i) >= K \/ (TLCSet(i, TLCGet(i) + 1) /\ PrintT(<<"SCHED", ToJson(sched), name>>))
 Goal1 == Emit(1, "UnrecordedDecided", G_UnrecordedDecided)
 Goal2 == Emit(2, "MarkedThenSucceeded", G_MarkedThenSucceeded)
 Goal3 == Emit(3, "KillMidPass", G_KillMidPass)
 Goal4 == Emit(4, "FinishedWithLive", G_FinishedWithLive)
 Goal5 == Emit(5, "DeletingAfterCrash", G_DeletingAfterCrash)
+Goal7 == Emit(7, "UnrecordedNextToSuccess", G_UnrecordedNextToSuccess)
 Goal6 == Emit(6, "RetryWhileOtherRuns", G_RetryWhileOtherRuns)
 Stop == \E i \in Goals : TLCGet(i) < K
-GInit == SInit /\ \A i \in 1..6 : TLCSet(i, 0)
+GInit == SInit /\ \A i \in 1..7 : TLCSet(i, 0)
 GSpec2 == GInit /\ [][GNext]_svars
 ====
